@@ -6,6 +6,6 @@ CONSTANTS
   Alphabet = "grid"
 SPECIFICATION Spec
 VIEW DepthView
-INVARIANTS TypeOK EqIffCellsAgree DiffOK AreaTight ObsOK PatternBack PatternDomain
+INVARIANTS FillFastIsFill TypeOK EqIffCellsAgree DiffOK AreaTight ObsOK PatternBack PatternDomain
 PROPERTIES StepProp
 CHECK_DEADLOCK FALSE
